@@ -167,7 +167,8 @@ PROPS = {
               dict(harness='k_json_visit_bool_null', klass='complete', schema=['bool'], family=None, target='JsonValueDecoderVisitor::visit_bool/visit_unit'),
               dict(harness='k_json_number_exact', klass='complete', schema=['f64'], family='json-number', target='<Number as Serialize>::serialize'),
               dict(harness='k_json_number_unit_trace', klass='complete', schema=['f64'], family='json-number', target='<Number as Serialize>::serialize (with unit)', one_spelling=True)],
-        witness='enum:hayson-roundtrip',
+        witness=['enum:hayson-roundtrip', 'enum:random-values'],
+        enums_thorough=['enum:random-values 40000'],
         design_ref='DESIGN.md section 4, C02',
         level_text=('Proof (Kani/CBMC, complete over all f64) of the number clause: the real <Number as Serialize>::serialize, run into a '
                     'recording Serializer, emits exactly one JSON number denoting the same f64 (integer form only when exact and not -0.0), '
@@ -193,7 +194,8 @@ PROPS = {
               dict(harness='k_json_scalar_traces', klass='complete', schema=['u8', 'f64', 'f64'], family=None, target='Serialize for Marker/Na/Remove/Coord/Symbol/Uri/Ref/XStr', one_spelling=True),
               dict(harness='k_json_number_exact', klass='complete', schema=['f64'], family='json-number', target='<Number as Serialize>::serialize'),
               dict(harness='k_json_number_unit_trace', klass='complete', schema=['f64'], family='json-number', target='<Number as Serialize>::serialize (with unit)', one_spelling=True)],
-        witness=['enum:hayson-roundtrip', 'enum:hayson-reference'],
+        witness=['enum:hayson-roundtrip', 'enum:hayson-reference', 'enum:random-values'],
+        enums_thorough=['enum:random-values 40000'],
         design_ref='DESIGN.md section 4, C05',
         level_text=('Proof (Verus, unbounded) of the writer side for every kind: jv_value is the Hayson table written from the specification as a '
                     'recursive function from values to JSON trees (null/bool/string as plain JSON; {"_kind":"marker"|"na"|"remove"}; ref with val and '
@@ -318,7 +320,8 @@ PROPS = {
         kani=[dict(harness='k_scanner_classes', klass='complete', schema=['u8'], family=None, target='Scanner::is_* byte classes'),
               dict(harness='k_unit_char_class', klass='complete', schema=['u8'], family=None, target='zinc number::is_unit_char'),
               dict(harness='k_u8_classes', klass='complete', schema=['u8'], family=None, target='u8::is_ascii_*')],
-        witness=['enum:zinc-escape', 'enum:zinc-spellings', 'enum:zinc-reference'],
+        witness=['enum:zinc-escape', 'enum:zinc-spellings', 'enum:zinc-reference', 'enum:random-values'],
+        enums_thorough=['enum:random-values 40000'],
         design_ref='DESIGN.md section 4, C04',
         level_text=('Proof, per token class, against the Project Haystack Zinc grammar (the oracle is the grammar, not the code): Verus '
                     'proves one clause per string escape letter of parse_str_escape (\\b U+0008, \\f U+000C, \\n, \\r, \\t, \\", \\\\, \\$) '
@@ -330,7 +333,7 @@ PROPS = {
                     'the keyword writers emit M R NA T F and the quoted-string writer emits " + enc(s) + " with enc written from the grammar. '
                     'Composite layout: a recursive specification enc_value of the grammar\'s list, dict and grid productions (commas between items and none '
                     'after the last, name[:value] tags with the value omitted for markers, a ver:"<the version the grid carries>" line, space-separated meta, column line, one line '
-                    'per row with an empty cell for an absent tag, empty marker for a grid without rows, << >> around a nested grid and only there) is '
+                    'per row with an empty cell for an absent tag (N in a single-column grid, where an empty line would end the grid), empty marker for a grid without rows, << >> around a nested grid and only there) is '
                     'proved to be exactly what the real List/Dict/Grid/Column/Value writers emit, for every value tree, with nested values always '
                     'written in inner-grid mode; DateTime is RFC 3339 text followed by a space and the zone name exactly when the value is not UTC. '
                     'Reader side of lists and dicts, token level (u_zgram, every input): the real parse_value / parse_nested_value / parse_list / parse_dict / '
@@ -402,7 +405,8 @@ PROPS = {
               dict(harness='k_reader_chunks', klass='bounded', bound='3-byte stream, <= 2 Interrupted results, symbolic chunk lengths',
                    target='Scanner::make / read_byte (reader contract)', timeout=1500, thorough_only=True),
               dict(harness='k_json_number_exact', klass='complete', schema=['f64'], family='json-number', target='<Number as Serialize>::serialize (re-encoding a decoded number denotes the same f64)')],
-        witness='zinc', enums=['enum:stream-chunks', 'enum:reencode-stable', 'enum:lazy-rows'],
+        witness='zinc', enums=['enum:stream-chunks', 'enum:reencode-stable', 'enum:lazy-rows', 'enum:random-values'],
+        enums_thorough=['enum:random-values 40000'],
         design_ref='DESIGN.md section 4, C11',
         level_text=('Proof (Verus) of the second sentence only, as a frame argument: in the extracted decoder the reader is an opaque token '
                     'that only Scanner::make and read_byte can touch; every other function of the scanner, lexer and parsers -- including the '
@@ -426,7 +430,8 @@ PROPS = {
                ('u_enc', [r'^write_quoted_str$', r'^Str::to_zinc$', r'^Ref::to_zinc$', r'^Uri::to_zinc$', r'^Symbol::to_zinc$', r'^XStr::to_zinc$', r'^lemma_str_escape_inverse$', r'^Marker::to_zinc$', r'^Remove::to_zinc$', r'^Na::to_zinc$', r'^Bool::to_zinc$', r'^Number::to_zinc$'], dict(one_spelling=True)),
                ('u_zgram', [r'^Parser::parse_value$', r'^Parser::parse_nested_value$', r'^parse_list$', r'^parse_dict$', r'^parse_dict_parts$', r'^RowParser::parse_row$', r'^parse_grid_ver$', r'^parse_grid_meta$'], dict(beyond_property='the token-grammar contract also rejects a decoder that starts to accept text which is not a Zinc sentence, about which the property is silent'))],
         kani=[dict(harness='k_zinc_keywords', klass='complete', schema=['u8'], family=None, target='to_zinc of Marker/Remove/Na/Bool')],
-        witness=['enum:zinc-roundtrip-scalars', 'enum:zinc-escape'],
+        witness=['enum:zinc-roundtrip-scalars', 'enum:zinc-escape', 'enum:random-values'],
+        enums_thorough=['enum:random-values 40000'],
         design_ref='DESIGN.md section 4, C01',
         level_text=('Proof of decode(encode(v)) == v for two families of values. (1) Strings, all of them (every Unicode string incl. controls, quotes, '
                     'backslash, $, astral planes): Verus proves on the real write_quoted_str (= Str::to_zinc) that the output is " + enc(s) + " with '
